@@ -154,9 +154,17 @@ pub fn hostile_dir_case(a: &Args, idx: u64, acc: &mut Acc) {
         let _ = std::os::unix::fs::symlink(".", place(&mut rng).join("self"));
         prepared.push("symlink to '.'");
     }
+    if rng.chance(1, 2) {
+        let _ = std::os::unix::fs::symlink("sub", root_dir.join("link_to_dir"));
+        prepared.push("symlink 'link_to_dir' -> directory 'sub'");
+    }
+    if rng.chance(1, 2) {
+        let _ = std::os::unix::fs::symlink("plain.txt", root_dir.join("link_to_file"));
+        prepared.push("symlink 'link_to_file' -> file 'plain.txt'");
+    }
     let root = VfsPath::new(PhysicalFS::new(&root_dir));
     acc.evaluations += 1;
-    let targets = ["", "/sub", "/dangling", "/sub/dangling", "/loop_a", "/sub/loop_a", "/plain.txt", "/self", "/dangling/x", "/loop_a/x", "/new"];
+    let targets = ["", "/sub", "/dangling", "/sub/dangling", "/loop_a", "/sub/loop_a", "/plain.txt", "/self", "/dangling/x", "/loop_a/x", "/new", "/link_to_dir", "/link_to_file", "/link_to_dir/x"];
     let mut log = vec![];
     for _ in 0..rng.range(6, 20) {
         let t = rng.pick(&targets).to_string();
@@ -182,7 +190,23 @@ pub fn hostile_dir_case(a: &Args, idx: u64, acc: &mut Acc) {
             _ => Op::SetTime(t, TimeField::Modified, 1, 1),
         };
         // documented non-termination (loops in the hierarchy): walk over a self-link is bounded by the executor's item cap
+        // C12 on disk contents the path API did not create: an occupied create_dir target is classified by what
+        // metadata() reports for it (a symlink to a directory IS a directory for every other observer)
+        let occupant = if let Op::CreateDir(p) = &op { at(&root, p).metadata().ok().map(|m| m.file_type) } else { None };
         let r = exec(&root, &op);
+        if let (Some(ft), Err(e)) = (occupant, &r) {
+            let want = if ft == vfs::VfsFileType::Directory { crate::ops::Kind::DirExists } else { crate::ops::Kind::FileExists };
+            acc.count("occupied_create_dir_on_prepared_directory", 1);
+            if e.panic.is_none() && e.kind != want && !op.path().is_empty() {
+                acc.violate(Violation {
+                    property: "C12",
+                    signature: format!("kind|create_dir|occupied-by-{}|want:{}|got:{}|phys-prepared-dir", if ft == vfs::VfsFileType::Directory { "dir" } else { "file" }, want.name(), e.kind.name()),
+                    summary: format!("{} on a path that metadata() reports as {:?} fails with {} instead of {}: {}", op.render(), ft, e.kind.name(), want.name(), e.display),
+                    detail: J::obj().set("tag", J::s("c13-hostile-dir")).set("seed", J::i(a.seed)).set("history", J::i(idx)).set("prepared", J::arr(prepared.iter().map(J::s))).set("log", J::arr(log.iter().map(J::s))),
+                    order: idx,
+                });
+            }
+        }
         log.push(format!("{} => {}", op.render(), crate::ops::res_class(&r)));
         acc.steps += 1;
         if let Err(e) = &r {
